@@ -8,8 +8,11 @@
 package main
 
 import (
+	"bufio"
 	"bytes"
 	"fmt"
+	"io"
+	"os"
 	"strings"
 
 	"gitlab.com/gomidi/midi/v2/internal/verifh/engine"
@@ -23,9 +26,49 @@ var ctx *engine.Ctx
 
 // decode runs the library and compares. Returns "" or a raw difference name.
 func decode(file []byte, exp *refsmf.File) (diff string, track int, what string, c engine.Caught) {
+	return decodeVia("bytes.Reader", file, exp)
+}
+
+type plainReader struct{ r io.Reader }
+
+func (p plainReader) Read(b []byte) (int, error) { return p.r.Read(b) }
+
+var tmpFile *os.File
+
+// source wraps the bytes in the kind of io.Reader a caller may hand to ReadFrom.
+func source(kind string, file []byte) io.Reader {
+	switch kind {
+	case "plain":
+		return plainReader{bytes.NewReader(file)} // neither Seeker nor ByteReader
+	case "section":
+		return io.NewSectionReader(bytes.NewReader(file), 0, int64(len(file))) // Seeker, ReaderAt, no ReadByte
+	case "bufio":
+		return bufio.NewReaderSize(bytes.NewReader(file), 16)
+	case "os.File":
+		if tmpFile == nil {
+			f, err := os.CreateTemp(os.Getenv("VERIF_WORK"), "c02-*.mid")
+			if err != nil {
+				return bytes.NewReader(file)
+			}
+			os.Remove(f.Name())
+			tmpFile = f
+		}
+		tmpFile.Truncate(0)
+		tmpFile.Seek(0, 0)
+		tmpFile.Write(file)
+		tmpFile.Seek(0, 0)
+		return tmpFile
+	}
+	return bytes.NewReader(file)
+}
+
+var sourceKinds = []string{"plain", "section", "bufio"}
+
+func decodeVia(kind string, file []byte, exp *refsmf.File) (diff string, track int, what string, c engine.Caught) {
 	var got *smf.SMF
 	var err error
-	c = engine.Catch(func() { got, err = smf.ReadFrom(bytes.NewReader(file)) })
+	src := source(kind, file)
+	c = engine.Catch(func() { got, err = smf.ReadFrom(src) })
 	if c.Panicked {
 		return "panic", -1, c.Value, c
 	}
@@ -105,6 +148,25 @@ func judge(sh smfgen.Shape, seq []smfgen.Timed, eot *smfgen.Delta) {
 	nontrivial(sh, seq)
 	diff, track, what, c := decode(file, exp)
 	if diff == "" {
+		// the same bytes through other kinds of io.Reader (a seeker without
+		// ReadByte, a plain reader, a small bufio.Reader; os.File for shaped files)
+		kinds := sourceKinds
+		if len(sh.Aliens) > 0 && len(seq) <= 1 && sh.Division == 96 {
+			kinds = append(append([]string{}, kinds...), "os.File")
+		}
+		for _, k := range kinds {
+			ctx.Eval()
+			if d2, _, w2, c2 := decodeVia(k, file, exp); d2 != "" {
+				sig := "decode-via-" + k + ":" + d2 + ":alien=" + sh.AlienPosition()
+				if d2 == "panic" {
+					sig = c2.Sig + ":via-" + k
+				}
+				if ctx.SigCount(sig) < 10 {
+					ctx.Violation(sig, map[string]interface{}{"kind": "file", "file": engine.Hex(file), "shape": sh.Name, "source": k,
+						"what": "decodes correctly from a bytes.Reader but not from a " + k + ": " + w2})
+				}
+			}
+		}
 		return
 	}
 	// blame: shape or sequence?
@@ -297,7 +359,8 @@ func main() {
 // valueSweeps: every channel status (explicit and under running status) and
 // every meta type, in a plain file and in a two-track file.
 func valueSweeps() {
-	shapes := []smfgen.Shape{smfgen.BaseShape(), {Name: "fmt1/2trk/seq@1", Format: 1, NTracks: 2, Division: 480, SeqTrack: 1}}
+	shapes := []smfgen.Shape{smfgen.BaseShape(), {Name: "fmt1/2trk/seq@0", Format: 1, NTracks: 2, Division: 480, SeqTrack: 0},
+		{Name: "fmt1/2trk/seq@0/alien", Format: 1, NTracks: 2, Division: 480, SeqTrack: 0, Aliens: []smfgen.Alien{{Before: 1, Type: "XFIH", Body: []byte{1, 2, 3}}}}}
 	sweep := func(kind string, bodies [][]byte, evs [][]refsmf.Event) {
 		for i := range bodies {
 			for _, sh := range shapes {
@@ -312,6 +375,15 @@ func valueSweeps() {
 				}
 				ctx.NontrivialN(1)
 				diff, _, what, c := decode(file, exp)
+				for _, k := range append(sourceKinds, "os.File") {
+					if diff == "" {
+						ctx.Eval()
+						diff, _, what, c = decodeVia(k, file, exp)
+						if diff != "" {
+							what = "via " + k + ": " + what
+						}
+					}
+				}
 				if diff == "" {
 					continue
 				}
@@ -334,6 +406,8 @@ func valueSweeps() {
 	sweep("status", b, e)
 	b, e = smfgen.MetaSweep()
 	sweep("meta-type", b, e)
+	b, e = smfgen.LongSweep()
+	sweep("long-payload", b, e)
 }
 
 // manyTracks: boundary files around the int16 track counter.
@@ -371,6 +445,11 @@ func replay() {
 		return
 	}
 	diff, _, what, c := decode(file, exp)
+	for _, k := range append(sourceKinds, "os.File") {
+		if diff == "" {
+			diff, _, what, c = decodeVia(k, file, exp)
+		}
+	}
 	if diff == "" {
 		fmt.Println("REPLAY: property holds for this case")
 		return
